@@ -287,7 +287,7 @@ def run(ctx):
     if r.ok or r.kind != "invariant":
         raise MachineryError("vacuity: the depth invariants of InlineLoop do not reject the recursive algorithm (%s)" % (r.error or "passed"))
 
-    big = ("S1", "S3", "S1E", "G1", "G2", "G3", "G4")
+    big = ("S1", "S2", "G1", "G2", "G3", "G4")   # the property: both build orders, ok/failure, generators/coroutines
     traces = []
     for cfg in all_shapes():
         if ctx.quick:
